@@ -800,7 +800,8 @@ impl Transformer {
             }
             _ => {}
         }
-        if !orig_svg_attrs.contains_key("id") {
+        // (an id for local styles is only needed when styles are injected at all)
+        if !orig_svg_attrs.contains_key("id") && self.context.config.add_auto_styles {
             if let Some(local_id) = &self.context.local_style_id {
                 new_svg_attrs.insert("id", local_id.as_str());
             }
